@@ -94,6 +94,7 @@ theorem bq_cleanupLoggers (inj : BSt → Nat → BSt) (hq : Quiet9 inj) (s : BSt
   · rfl
 
 theorem bq_flushSinks (s : BSt) : bq (flushSinks s) = bq s := bq_of_stripOut (flushSinks_strip s)
+theorem bq_preEraseFlush (s : BSt) : bq (preEraseFlush s) = bq s := bq_of_stripOut (preEraseFlush_strip s)
 
 theorem runInj_nil (s : BSt) (site : Nat) :
     runInj [] s site = { s with siteCnt := (site, siteK s site) :: s.siteCnt.filter (·.1 ≠ site) } := by
@@ -144,7 +145,7 @@ def exitBody (inj : BSt → Nat → BSt) (tick : Nat) (s : BSt) : BSt :=
 
 /-- what the loop does when it finds everything empty: report, flush, reclaim -/
 def exitFinal (inj : BSt → Nat → BSt) (s : BSt) : BSt :=
-  cleanupLoggers inj (cleanupContexts (flushSinks (checkFailures inj (allEmpty s).1)))
+  cleanupLoggers inj (preEraseFlush (cleanupContexts (flushSinks (checkFailures inj (allEmpty s).1))))
 
 theorem exitLoop_zero (inj : BSt → Nat → BSt) (tick : Nat) (s : BSt) : exitLoop inj tick 0 s = s := rfl
 
@@ -185,7 +186,7 @@ theorem exitFinal_drained (s : BSt) (hs : TCInv s) (he : (allEmpty s).2 = true) 
     AllDrained (exitFinal (runInj []) s) := by
   unfold exitFinal
   apply AllDrained_of_bq _ (allEmpty_drained s hs he)
-  rw [bq_cleanupLoggers _ runInj_nil_quiet9, bq_cleanupContexts, bq_flushSinks, bq_checkFailures_nil]
+  rw [bq_cleanupLoggers _ runInj_nil_quiet9, bq_preEraseFlush, bq_cleanupContexts, bq_flushSinks, bq_checkFailures_nil]
 
 /-- if the exit loop reaches its "everything is empty" branch, it ends in `exitFinal` of a reachable state in
     which the emptiness check answered yes -/
